@@ -59,6 +59,20 @@ CLAIMS = {
              "trips and the serde struct/sequence forms, validated by TLC against LEBytes(bits mod 2^w, w/8) for every value of the 8-bit "
              "layouts and lattice+random values of 88 wider layouts.",
         technique="TLA+ trace validation with TLC (impl->spec)", design_ref="6/C10"),
+    "C11": dict(
+        text="The union corpus of the arithmetic, comparison, conversion, float, codec and Wrapping generators is recorded by the harness "
+             "built with debug-assertions+overflow-checks on and off; TLC validates the paired records with the ProfilePair action: every "
+             "outcome slot identical, or a panic of the checked build exactly where the exact result of an un-prefixed form does not fit "
+             "or the divisor is zero (decided by layer M), never in a checked_/saturating_/wrapping_/overflowing_ form.",
+        technique="TLA+ trace validation with TLC of paired traces from two build profiles (ProfilePair action)",
+        design_ref="6/C11"),
+    "C18": dict(
+        text="Random 14-step programs over four registers of Wrapping<F> (all operators in by-value/by-reference/assigning forms, 12 shift "
+             "amount types, Sum/Product, rounding, from_num) on 36 layouts under both build profiles; the trace specification is a "
+             "register machine (tla/sem/SemWrap.tla): TLC keeps the registers itself and recomputes every step modulo 2^w from its own "
+             "state, so a wrong intermediate is caught at the step that produced it. Panics accepted only for a zero divisor.",
+        technique="TLA+ trace validation with TLC of a stateful register-machine specification (impl->spec), both build profiles",
+        design_ref="6/C18"),
 }
 
 REASON_TODO = "check not built yet in this round; the specification does not cover it so far"
